@@ -4437,7 +4437,10 @@ class ParameterizedMetaclass(type):
                 method = getattr(mcs, dep[0], None)
                 dinfo = getattr(method, '_dinfo', {'watch': False})
                 if (not any(dep[0] == w[0] for w in _watch+_inherited)
-                    and dinfo.get('watch')):
+                    and dinfo.get('watch')
+                    # the registration of the method this class resolves to,
+                    # not the one a sibling base inherited from further up
+                    and getattr(cls, dep[0], None) is method):
                     _inherited.append(dep)
 
         mcs.param._depends = {'watch': _inherited+_watch}
